@@ -138,6 +138,12 @@ def parser_facts(ctx, b):
             for (bj, pl, adt, edges) in b.discr_switches():
                 if place_path(known, pl) == [()] and 'Some' in edges:
                     out['prefix_edges'].append(edges['Some'])
+            for c2 in b.calls:   # `strip_prefix(..)?`
+                if c2.name.endswith('::branch') and c2.arg_local(0) in known:
+                    k2 = alias_paths(b, c2.dest_local())
+                    for (bj, pl, adt, edges) in b.discr_switches():
+                        if place_path(k2, pl) == [()] and 'Continue' in edges:
+                            out['prefix_edges'].append(edges['Continue'])
     for (bi, c, te, fe, cs) in b.switches_on_call(lambda c: re.search(r'PartialEq.*>::(eq|ne)$', c.name) is not None and 'str' in c.name):
         for i in (0, 1):
             t = arg_text(cs, i)
@@ -264,7 +270,8 @@ def fs4(ctx):
     exits = [e for e in b.exits() if e['kind'] not in ('none',)]
     # exits that are not a literal None: forward of Result::ok(parse)
     fw = [e for e in exits if e['kind'] == 'forward']
-    other = [e for e in exits if e['kind'] not in ('forward',)]
+    # `?` on an Option propagates None: not a number
+    other = [e for e in exits if e['kind'] not in ('forward',) and not (e['kind'] == 'err_prop' and 'std::option::Option<' in e['residual_call'].name.split(' as ')[0])]
     ok_forward = len(fw) == 1 and not other and re.search(r'Result::<u64, .*>::ok$', fw[0]['call'].name) is not None
     if ok_forward:
         back = fl.backward(set(fl.op_nodes(fw[0]['call'].args[0])))
